@@ -236,6 +236,15 @@ def hoist_suspensions(fn):
         elif isinstance(s, (ast.Assign, ast.AnnAssign, ast.AugAssign,
                             ast.Return)):
             v = s.value
+        elif isinstance(s, ast.If):
+            # `if (yield X) is not None:` - the suspension is the first
+            # thing the test evaluates (no short circuit before it)
+            t = s.test
+            if isinstance(t, ast.UnaryOp) and isinstance(t.op, ast.Not):
+                t = t.operand
+            head = t.left if isinstance(t, ast.Compare) else t
+            if isinstance(head, (ast.Yield, ast.YieldFrom, ast.Await)):
+                v = ast.Tuple([s.test], ast.Load())
         return v
 
     def find(s):
